@@ -219,6 +219,9 @@ type EnumOpts struct {
 	ForceInline func(*ssa.Function) bool
 	// StopDeep applies StopBlock inside spliced helpers too.
 	StopDeep bool
+	// Params binds parameters (of the function, or of functions enclosing a closure) to the values a
+	// particular call site passes: the paths are rendered in that caller's terms.
+	Params map[*ssa.Parameter]ssa.Value
 }
 
 type EnumResult struct {
@@ -650,7 +653,7 @@ func (w *World) enumPaths(fn *ssa.Function, o EnumOpts) EnumResult {
 			finish(nf, "exit", nil)
 		}
 	}
-	walk(start, nil, frame{phi: map[*ssa.Phi]ssa.Value{}, onPath: map[*ssa.BasicBlock]int{}, mem: map[*ssa.Alloc]ssa.Value{}}, 0, nil)
+	walk(start, nil, frame{phi: map[*ssa.Phi]ssa.Value{}, onPath: map[*ssa.BasicBlock]int{}, mem: map[*ssa.Alloc]ssa.Value{}, param: o.Params}, 0, nil)
 	return res
 }
 
